@@ -525,16 +525,17 @@ func cmdHistory(args []string) {
 		// made from, so full and filtered runs still agree (the memo key holds what the configuration says to the lint)
 		seenLint := map[string]bool{}
 		for _, id := range h.cat.ids {
-			if !strings.HasPrefix(id, "val:") {
+			// one option-changing configuration and one unapplicable section (that lint answers fatal: the others must not notice) per configurable lint
+			if !strings.HasPrefix(id, "val:") && !strings.HasPrefix(id, "scalar:") {
 				continue
 			}
 			name := strings.Split(id, ":")[1]
-			if seenLint[name] {
+			if seenLint[strings.Split(id, ":")[0]+name] {
 				continue
 			}
-			seenLint[name] = true
+			seenLint[strings.Split(id, ":")[0]+name] = true
 			h.setCfg(0, id)
-			kids := []int{h.filter(0, "cfg-single:"+name, lint.FilterOptions{IncludeNames: []string{name}}),
+			kids := []int{h.filter(0, "cfg-single:"+name, lint.FilterOptions{IncludeNames: []string{name}}), h.filter(0, "cfg-without:"+name, lint.FilterOptions{ExcludeNames: []string{name}}),
 				h.filter(0, "cfg-re", lint.FilterOptions{NameFilter: regexp.MustCompile("^[ewn]_")}),
 				h.filter(0, "cfg-exc", lint.FilterOptions{ExcludeSources: lint.SourceList{lint.RFC5891}})}
 			for oi := range objs {
